@@ -249,6 +249,10 @@ FUNCS = [
     ("rig/place_and_route/place/utils.py", "overallocated", ["dict"], "bool"),
     ("rig/place_and_route/place/utils.py", "resources_after_reservation",
      ["dict", "rec:resource,reservation.start,reservation.stop"], "exc:dict"),
+    ("rig/place_and_route/machine.py", "Machine.__contains__@chip",
+     ["obj:width,height,dead_chips:s2,dead_links:s3", "tup2"], "bool"),
+    ("rig/place_and_route/machine.py", "Machine.__contains__@link",
+     ["obj:width,height,dead_chips:s2,dead_links:s3", "tup3"], "bool"),
     ("rig/bitfield.py", "BitField._assign_field",
      ["rec:length", "local:field=obj:length:o,start_at:o,max_value", "int", "ignored", "ignored"], "exc:int"),
     ("rig/type_casts.py", "NumpyFloatToFixConverter.__init__",
@@ -438,8 +442,10 @@ def ident(name):
 
 
 def lean_name(qual):
-    """`_get_generality` -> get_generality, `Routes.is_link` -> Routes_is_link, `C.__len__` -> C_len"""
-    return "_".join(part.strip("_") for part in qual.split("."))
+    """`_get_generality` -> get_generality, `Routes.is_link` -> Routes_is_link, `C.__len__` -> C_len,
+    `C.__contains__@chip` -> C_contains_chip (the same source function translated for another argument type)"""
+    qual, _, alias = qual.partition("@")
+    return "_".join([part.strip("_") for part in qual.split(".")] + ([alias] if alias else []))
 
 
 def lean_ty(t):
@@ -1308,8 +1314,25 @@ class Tr(object):
         """a Python expression used as a condition -> Lean Prop"""
         if isinstance(n, ast.Compare) and len(n.ops) == 1 and isinstance(n.ops[0], (ast.In, ast.NotIn)):
             # `x in Enum` / `x not in Enum` for an IntEnum class: value membership (Python >= 3.12)
-            vals = self.enum_values(n.comparators[0])
             c = n.comparators[0]
+            neg = isinstance(n.ops[0], ast.NotIn)
+            sa = self.self_attr(c) if isinstance(c, ast.Attribute) else None
+            if sa is not None and sa[0] == "state" and self.lty.get(sa[1], "").startswith("List (") \
+                    and self.lty[sa[1]][5:].strip("()") == self.tyof(n.left):
+                # t in self.<set of tuples> (the set as a list; only membership is used)
+                m = "(%s.contains %s = true)" % (sa[1], self.e(n.left))
+                return "(¬ %s)" % m if neg else m
+            if isinstance(c, ast.Name) and c.id == self.objname and self.types.get(c.id) == "obj":
+                # t in self: the translated `__contains__` of the class for a tuple of that arity
+                for cname in self.mro:
+                    for q, d in self.done.items():
+                        if q.startswith("%s.__contains__" % cname) and d[1][:1] == [self.obj_spec] and len(d[1]) == 2 \
+                                and lean_ty(d[1][1]) == self.tyof(n.left) and d[0] == "bool" and not d[2]:
+                            m = "((%s %s %s).1 = true)" % (lean_name(q), " ".join(
+                                self.objname + "_" + a for a in self.attrs), self.e(n.left))
+                            return "(¬ %s)" % m if neg else m
+                raise NotImplementedError("`in self` without a translated __contains__")
+            vals = self.enum_values(n.comparators[0])
             if vals is None and isinstance(c, (ast.List, ast.Tuple)) and c.elts and all(
                     self.tyof(x) == "Int" for x in c.elts) and self.tyof(n.left) == "Int":
                 vals = [self.e(x) for x in c.elts]          # `x in [a, b, c]` over ints
@@ -1916,6 +1939,14 @@ class Tr(object):
                 and n.args[0].id not in self.assigned_anywhere_py
                 and isinstance(n.args[1], ast.Name) and n.args[1].id in ("str", "Iterable", "bytes", "list", "tuple")):
             return False
+        if (isinstance(n, ast.Compare) and len(n.ops) == 1 and isinstance(n.ops[0], ast.Eq)
+                and isinstance(n.left, ast.Call) and isinstance(n.left.func, ast.Name) and n.left.func.id == "len"
+                and len(n.left.args) == 1 and isinstance(n.left.args[0], ast.Name)
+                and self.types.get(n.left.args[0].id) in ("tup2", "tup3")
+                and n.left.args[0].id not in self.assigned_anywhere_py
+                and isinstance(n.comparators[0], ast.Constant) and isinstance(n.comparators[0].value, int)):
+            # len(t) of a parameter declared as a tuple of known arity
+            return {"tup2": 2, "tup3": 3}[self.types[n.left.args[0].id]] == n.comparators[0].value
         if isinstance(n, ast.UnaryOp) and isinstance(n.op, ast.Not):
             v = self.static_test(n.operand)
             return None if v is None else not v
@@ -2312,6 +2343,7 @@ def module_str_consts(repo, rel, tree):
 
 
 def find_def(tree, rel, qual):
+    qual = qual.partition("@")[0]
     scope, cls = tree, None
     parts = qual.split(".")
     if len(parts) > 3:
@@ -2367,7 +2399,7 @@ def translate(repo, rel, fname, ptypes, ret, done=None):
         fn = ast.FunctionDef(name=fn.name, args=ast.arguments(posonlyargs=[], args=fn.args.args + ia.args, vararg=fn.args.vararg,
                              kwonlyargs=fn.args.kwonlyargs, kw_defaults=[], kwarg=fn.args.kwarg, defaults=[]),
                              body=body[:-2] + inner.body, decorator_list=fn.decorator_list, lineno=fn.lineno)
-    nested_def = fname.count(".") == 2
+    nested_def = fname.partition("@")[0].count(".") == 2
     if nested_def:
         cls = None
     fn.decorator_list = [d for d in fn.decorator_list if not (
@@ -2422,7 +2454,8 @@ def translate(repo, rel, fname, ptypes, ret, done=None):
             skipped = [x for x in skip.split(",") if x]
             spec = [x for x in main.split(",") if x]
             attrs = [x.split(":")[0] for x in spec]
-            aty = [{"b": "Bool", "y": "List Int", "o": "Option Int"}.get(x.split(":")[1], None) if ":" in x else "Int"
+            aty = [{"b": "Bool", "y": "List Int", "o": "Option Int", "s2": "List (Int × Int)",
+                    "s3": "List (Int × Int × Int)"}.get(x.split(":")[1], None) if ":" in x else "Int"
                    for x in spec]
             if None in aty:
                 raise NotImplementedError("%s: attribute type in %s" % (fname, t))
